@@ -659,4 +659,8 @@ def run(ctx):
                     run.finding(Finding(R9, uk.id, "an outstanding send with change is never looked up by kernel, also when no change output refers to it any more (change re-spent before it confirmed): it stays unconfirmed for good", site=c.site_of(uk, g_)))
                 else:
                     run.finding(Finding(R9, uk.id, "outstanding entries are excluded from the kernel lookup by a condition other than confirmed / no kernel excess / (debit and credit, change output pending)", site=c.site_of(uk, g_), detail=cl))
+    R10 = "C04.R10"
+    run.rule(R10, "log entries are keyed by (account, id): every creator of an entry draws the id from the counter of the account it saves the entry under", floor=3)
+    from .shared import log_id_account
+    log_id_account(ctx, R10)
     run.not_decided += ["equality with the node's UTXO set", "the ledger identity credits - debits = total + locked", "confirmation / maturity arithmetic"]
